@@ -555,7 +555,8 @@ def reactivation_case(rng, cfg, name):
             if r < 0.5: ops.append("succeed 0 %d" % k)
             elif r < 0.8: ops.append("fail 0 %d" % k)
             else: ops.append("changeTo 0 %d" % k)
-            ops.append("update 0" if rng.random() < 0.7 else "react 0")
+            if rng.random() < 0.75:     # sometimes the request is still outstanding when the machine is deactivated
+                ops.append("update 0" if rng.random() < 0.7 else "react 0")
         r = rng.random()
         if cfg.manual and r < 0.6:
             ops += ["exit 0", "enter 0"]
